@@ -11,13 +11,16 @@
 (*   portion  the evaluator: complexity answers around the thresholds, 1..3 *)
 (*          portions, every split of 2-3 traces over the portions, limits  *)
 (*          that are / are not reached by a portion, spans before the      *)
-(*          window and on both sides of a moved window start               *)
+(*          window and on both sides of a moved window start, both         *)
+(*          sub-second phases of the stored timestamps (2+ portions)       *)
 (*   rand   cases listed in RandCases (seeded sample of the FULL bounds:   *)
 (*          3 traces x 3 spans x 2 attributes, whole grammar, 0..3         *)
-(*          portions with a random split)                                  *)
+(*          portions with a random split, random phase)                    *)
 (* Every PortEvery-th case (by hash) of the other layers is ALSO executed  *)
 (* in 2 or 3 portions (split derived from the hash): every term, tree      *)
-(* shape, aggregate and chain goes through the re-processed plan.          *)
+(* shape, aggregate and chain goes through the re-processed plan.  Every   *)
+(* case of the other layers has a sub-second phase derived from the hash:  *)
+(* every planner sees timestamps on and off the whole second.              *)
 (* State graph: root -> one state per query ("part") -> one state per      *)
 (* (query, database) case.  (The intermediate level only exists to let     *)
 (* TLC's workers generate and check the cases in parallel.)                *)
@@ -61,8 +64,8 @@ Search1(sel, from, to, limit) == Query("search", <<sel>>, <<>>, from, to, limit,
 RT(k, key, op, c, n, pfx) == [k |-> k, key |-> key, op |-> op, cs |-> c, cn |-> n, pfx |-> pfx]
 RA(fn, attr, op, c) == [fn |-> fn, attr |-> attr, op |-> op, c |-> c]
 RSel(sh, t, agg) == [sh |-> sh, t |-> t, agg |-> agg]
-RC(q, db) == [q |-> q, db |-> db, cx |-> 0, part |-> [ti \in DOMAIN db |-> 0]]
-RCP(q, db, cx, part) == [q |-> q, db |-> db, cx |-> cx, part |-> part]
+RC(q, db) == [q |-> q, db |-> db, cx |-> 0, part |-> [ti \in DOMAIN db |-> 0], ph |-> 0]
+RCP(q, db, cx, part, ph) == [q |-> q, db |-> db, cx |-> cx, part |-> part, ph |-> ph]
 
 Span(a, b, nm, dur, ts) == [a |-> a, b |-> b, nm |-> nm, dur |-> dur, ts |-> ts]
 At(s, ts) == [s EXCEPT !.ts = ts]
@@ -221,22 +224,23 @@ PortSplits3 == {<<0, 1, 2>>, <<2, 1, 0>>, <<1, 0, 0>>, <<0, 2, 2>>} \cup (IF Tho
 PortCases(p) ==
   LET n == Portions(p.cx)
   IN IF p.i = 1   \* the decision: how many executions
-     THEN {[db |-> db, cx |-> p.cx, part |-> [ti \in DOMAIN db |-> IF n = 0 THEN 0 ELSE (ti - 1) % n]] :
+     THEN {[db |-> db, cx |-> p.cx, part |-> [ti \in DOMAIN db |-> IF n = 0 THEN 0 ELSE (ti - 1) % n], ph |-> DbCode(db) % 2] :
              db \in {<<tr1, tr2, <<PS("sx", 1)>> >> : tr1 \in PortSingles, tr2 \in PortPairs}}
      ELSE IF n = 1
-     THEN {[db |-> db, cx |-> p.cx, part |-> <<0, 0>>] :
+     THEN {[db |-> db, cx |-> p.cx, part |-> <<0, 0>>, ph |-> DbCode(db) % 2] :
              db \in {x \in PortDB2 : Thorough \/ Len(x[1]) = 1}}
      ELSE IF n = 2
-     THEN {[db |-> db, cx |-> p.cx, part |-> part] : db \in PortDB2, part \in Splits(<<1, 2>>, n)}
+     THEN {[db |-> db, cx |-> p.cx, part |-> part, ph |-> ph] : db \in PortDB2, part \in Splits(<<1, 2>>, n), ph \in Phases}
      ELSE LET sel == p.q.sels[1]
               three == Len(p.q.sels) = 1 /\ sel.sh \in {"s1", "or2"} /\ (Thorough \/ sel.agg.fn \in {"none", "count"})
           IN IF ~three THEN {}
-             ELSE {[db |-> db, cx |-> p.cx, part |-> part] : db \in PortDB3, part \in PortSplits3}
+             ELSE {[db |-> db, cx |-> p.cx, part |-> part, ph |-> ph] : db \in PortDB3, part \in PortSplits3, ph \in Phases}
 
 \* the other layers: every PortEvery-th case in 2 or 3 portions, the split derived from the hash
 AutoCx(h, q) == IF PortEvery > 0 /\ Splittable(q) /\ h % PortEvery = 0 THEN Threshold * (2 + ((h \div PortEvery) % 2)) ELSE 0
 AutoPart(h, db, cx) == LET n == Portions(cx)
                        IN [ti \in DOMAIN db |-> IF n = 0 THEN 0 ELSE ((h \div 5) + ti * (1 + ((h \div 11) % 2))) % n]
+AutoPh(h) == (h \div 7) % 2
 
 \* =========================================================================
 Parts ==
@@ -259,7 +263,7 @@ CasesOf(p) ==
   IF p.layer = "portion" THEN PortCases(p)
   ELSE {(LET h == QCode(p.q) + DbCode(db)
              cx == AutoCx(h, p.q)
-         IN [db |-> db, cx |-> cx, part |-> AutoPart(h, db, cx)]) : db \in DBsOf(p)}
+         IN [db |-> db, cx |-> cx, part |-> AutoPart(h, db, cx), ph |-> AutoPh(h)]) : db \in DBsOf(p)}
 PartCode(part) == SeqSum([ti \in DOMAIN part |-> (ti + 2) * part[ti]], 1, Len(part))
 
 Init == cs = [st |-> "root"]
@@ -268,20 +272,20 @@ Next ==
      /\ \/ \E p \in Parts : cs' = [st |-> "part", layer |-> p.layer, q |-> p.q, i |-> p.i, cx |-> p.cx]
         \/ /\ "rand" \in Layers
            /\ \E c \in RandCases : cs' = [st |-> "case", layer |-> "rand", q |-> c.q, db |-> c.db, h |-> QCode(c.q) + DbCode(c.db), i |-> 0,
-                                           cx |-> c.cx, part |-> c.part]
+                                           cx |-> c.cx, part |-> c.part, ph |-> c.ph]
   \/ /\ cs.st = "part"
      /\ \E c \in CasesOf(cs) :
           cs' = [st |-> "case", layer |-> cs.layer, q |-> cs.q, db |-> c.db,
-                 h |-> QCode(cs.q) + DbCode(c.db) + (IF cs.layer = "portion" THEN PartCode(c.part) + (c.cx \div 999983) ELSE 0),
-                 i |-> cs.i, cx |-> c.cx, part |-> c.part]
+                 h |-> QCode(cs.q) + DbCode(c.db) + (IF cs.layer = "portion" THEN PartCode(c.part) + (c.cx \div 999983) + 1013 * c.ph ELSE 0),
+                 i |-> cs.i, cx |-> c.cx, part |-> c.part, ph |-> c.ph]
 Spec == Init /\ [][Next]_cs
 
 \* =========================================================================
 \* invariants (evaluated on the case states)
 IsCase == cs.st = "case"
 Def == Eval(cs.q, cs.db)
-Mech == RunEval(cs.q, cs.db, cs.cx, cs.part, CodeFlags)
-Ideal == RunEval(cs.q, cs.db, cs.cx, cs.part, {})
+Mech == RunEval(cs.q, cs.db, cs.cx, cs.part, cs.ph, CodeFlags)
+Ideal == RunEval(cs.q, cs.db, cs.cx, cs.part, cs.ph, {})
 
 \* the design of the plan (bit per term, groupBitOr, HAVING tree, INTERSECT / UNION ALL, limits) is right
 IdealConforms == IsCase => ConformsAll(Ideal, Def, cs.q, cs.db)
@@ -293,6 +297,7 @@ DefSaneOf(d) == /\ d.M \subseteq Traces(cs.db)
                 /\ (cs.q.kind = "search" => d.seqs # {})
                 /\ DOMAIN cs.part = DOMAIN cs.db
                 /\ \A ti \in DOMAIN cs.part : cs.part[ti] \in 0..(IF Portions(cs.cx) = 0 THEN 0 ELSE Portions(cs.cx) - 1)
+                /\ cs.ph \in Phases
 DefSane == IsCase => DefSaneOf(Def)
 
 \* the date bound of init.go is implied by the timestamp bound
@@ -317,8 +322,8 @@ CheckCase ==
         THEN LET m == Mech
                  cand == ~ConformsAll(m, d, cs.q, cs.db)
              IN PrintT(<<"C11CASE", ToJson([layer |-> cs.layer, h |-> cs.h, i |-> cs.i, q |-> TrimQ(cs.q), db |-> cs.db,
-                                             cx |-> cs.cx, np |-> IF Splittable(cs.q) THEN Portions(cs.cx) ELSE 0, part |-> cs.part,
+                                             cx |-> cs.cx, np |-> IF Splittable(cs.q) THEN Portions(cs.cx) ELSE 0, part |-> cs.part, ph |-> cs.ph,
                                              def |-> d, mech |-> m, cand |-> cand,
-                                             explain |-> IF cand THEN ExplainRun(cs.q, cs.db, cs.cx, cs.part, d, CodeFlags) ELSE {}])>>)
+                                             explain |-> IF cand THEN ExplainRun(cs.q, cs.db, cs.cx, cs.part, cs.ph, d, CodeFlags) ELSE {}])>>)
         ELSE TRUE
 =============================================================================
